@@ -1,13 +1,13 @@
 import P0f.LogicOk.Prelude
 import P0f.Props.C06
+import P0f.LogicOk.HeadersMatch
 import P0f.Generated.Logic.HttpSignaturesMatch
 import P0f.Generated.Logic.FindHttpMatch
 import P0f.Generated.Logic.HttpDishonest
 namespace P0f
 open P0f.Py
 
-/-- `http_signatures_match` as printed from the source = the model's (C06; `headers_match` itself - a `while` loop - is
-    outside the translator's fragment and stays tied by the correspondence) -/
+/-- `http_signatures_match` as printed from the source = the model's (C06; `headers_match` through `gen_headersMatch`) -/
 theorem gen_httpSigMatch (s : HttpSig) (minor : Nat) (ph : List Hdr) : Gen.httpSigMatch s minor ph = httpSigMatch s minor ph := by
   first
   | exact rfl
@@ -30,7 +30,7 @@ theorem gen_httpSigMatch (s : HttpSig) (minor : Nat) (ph : List Hdr) : Gen.httpS
        | cons a as ih =>
          simp only [List.filter_cons, List.any_cons]
          cases (ph.map fun x => lower x.name).contains a <;> simp_all
-     simp only [optInt_beq_wild, hv, ha])
+     simp only [optInt_beq_wild, hv, ha, gen_headersMatch])
 
 theorem gen_findHttpLoop (recs : List HttpRec) (minor : Nat) (ph : List Hdr) (l : List HttpRec) (g : Option HttpRec) :
     Gen.findHttpMatch_loop0 recs minor ph l g = findHttpLoop minor ph l g := by
